@@ -149,7 +149,7 @@ class Ctx:
         if f is None and '::{closure@' in path:
             # the closure may have moved, with the code around it, into a transparent helper that was expanded into its former
             # parent (engine/inline.py): the unique closure of the same role in those helpers takes its place
-            parent, rest = path.split('::{closure@', 1)
+            parent, rest = path.rsplit('::{closure@', 1)
             role = rest.split('#', 1)[0]
             tail = rest.split('}', 1)[1]
             pf = self.prog.fn(parent)
@@ -245,6 +245,48 @@ class Ctx:
             out.append(Site(fn, bi, None, 'call', term, label=label or shorten(names[-1] + '(')[:-1]))
         return self._number(out)
 
+    def _split_bool(self, fn, rv, want, label, depth=0):
+        """`_0 = tmp` / `_0 = !tmp` where the compiler temporary `tmp` is a merge of several assignments (`!(a || b)`, `x && !(..)`):
+        the return is split into one site per assignment of `tmp`, placed at that assignment, with the polarity each one needs for the
+        function to return `want`; constant assignments of the wrong polarity drop out.  None when rv is not of that shape."""
+        neg = False
+        while rv[0] == 'un' and rv[1] == 'Not':
+            neg = not neg
+            rv = ['use', rv[2]]
+        if rv[0] != 'use' or rv[1][0] not in ('m', 'c') or not isinstance(rv[1][1], int) or depth > 3:
+            return None
+        l = rv[1][1]
+        if l <= fn.argc or any(isinstance(pl, int) and pl == l for _, pl in fn.meta['body']['vars']):
+            return None
+        defs = []
+        for bi, b in enumerate(fn.blocks):
+            if b['cleanup']:
+                continue
+            for si, st in enumerate(b['s']):
+                if st[0] == '=' and st[1] == l:
+                    defs.append((bi, si, st[2]))
+            t = b['t']
+            if t[0] == 'call' and t[3] == l:
+                defs.append((bi, None, t))
+        if len(defs) < 2:
+            return None
+        w = want != neg
+        out = []
+        for bi, si, d in defs:
+            if si is None:
+                tt = shorten(fn.term_call(d, 0))
+                out.append(Site(fn, bi, None, 'ret', tt, extra=[tt if w else core.negate(tt)], label=label))
+                continue
+            sub = self._split_bool(fn, d, w, label, depth + 1)
+            if sub is not None:
+                out.extend(sub)
+                continue
+            t = shorten(fn.term_rvalue(d, 0))
+            if t == ('false' if w else 'true'):
+                continue
+            out.append(Site(fn, bi, si, 'ret', t, extra=[] if t in ('true', 'false') else [t if w else core.negate(t)], label=label))
+        return out
+
     def false_returns(self, fn, label='false'):
         """sites where a bool function returns false (mirror of true_returns)"""
         out = []
@@ -253,6 +295,10 @@ class Ctx:
                 continue
             for si, st in enumerate(b['s']):
                 if st[0] == '=' and st[1] == 0:
+                    sp = self._split_bool(fn, st[2], False, label)
+                    if sp is not None:
+                        out.extend(sp)
+                        continue
                     t = shorten(fn.term_rvalue(st[2], 0))
                     if t == 'true':
                         continue
@@ -272,6 +318,10 @@ class Ctx:
                 continue
             for si, st in enumerate(b['s']):
                 if st[0] == '=' and st[1] == 0:
+                    sp = self._split_bool(fn, st[2], True, label)
+                    if sp is not None:
+                        out.extend(sp)
+                        continue
                     t = shorten(fn.term_rvalue(st[2], 0))
                     if t == 'false':
                         continue
